@@ -55,12 +55,12 @@ func VerifC26Unwrap() {
 	hasExt := verif.Bool("x")
 	extWords := 0
 	if hasExt {
-		extWords = verif.Choice("ext_words", 2)
+		extWords = verif.Choice("ext_words", verif.Param("max_ext_words", 1)+1)
 	}
 	hasPad := verif.Bool("p")
 	padLen := 0
 	if hasPad {
-		padLen = 1 + verif.Choice("pad_len", 3)
+		padLen = 1 + verif.Choice("pad_len", verif.Param("max_pad", 3))
 	}
 	body := verif.Choice("body", verif.Param("max_body", 3)+1)
 
